@@ -18,7 +18,8 @@ CIVIL_LEMMAS = ['lemma_div146097', 'lemma_div400', 'lemma_fdshift4', 'lemma_fdsh
                 'lemma_leapidx', 'lemma_cong', 'lemma_cong2', 'lemma_period', 'lemma_ordyear', 'lemma_lin_lift', 'lemma_lin_fits',
                 'lemma_quot_bounds', 'lemma_shift400', 'lemma_nday_lift', 'lemma_ordbound', 'lemma_valid28', 'lemma_dm_range', 'lemma_split1', 'lemma_split2', 'lemma_dm_small', 'lemma_carry', 'lemma_validday', 'lemma_nmonpre', 'lemma_dm_lin', 'lemma_trunc', 'lemma_dm_mono', 'lemma_validrepr', 'lemma_ordy_mono', 'lemma_dayord_lex', 'lemma_udiff', 'lemma_fits',
                 'lemma_I_anchor', 'lemma_I_sk', 'lemma_I_period', 'lemma_I_leapidx', 'lemma_I_fmstep', 'lemma_I_yearstep',
-                'lemma_I_centstep', 'lemma_I_4step', 'lemma_I_monthstep', 'lemma_I_day']
+                'lemma_I_centstep', 'lemma_I_4step', 'lemma_I_monthstep', 'lemma_I_day',
+                'lemma_dd', 'lemma_dd3', 'lemma_c4', 'lemma_q400']
 
 
 def civil_spec_lemmas():
@@ -42,7 +43,8 @@ def civil_carry_chain():
 
 def civil_c05_goals():
     ts = ('second', 'minute', 'hour', 'day')
-    return [enforce('civil', 'step_' + t, timeout=300) for t in ts] + \
+    return [enforce('civil', 'ymd_ord', timeout=300), enforce('civil', 'day_difference', timeout=400)] + \
+           [enforce('civil', 'step_' + t, timeout=300) for t in ts] + \
            [enforce('civil', 'scale_add'), enforce('civil', 'difference_year'), enforce('civil', 'difference_month')] + \
            [enforce('civil', 'difference_' + t, timeout=300) for t in ('hour', 'minute', 'second')] + \
            [enforce('civil', 'ct_%s_plus' % t, timeout=300) for t in ts] + \
@@ -108,18 +110,18 @@ NOT_YET = {}
 PROPERTIES['C05'] = dict(
     goals=lambda: civil_spec_lemmas() + civil_leaves() + civil_nday() + civil_carry_chain() + civil_c05_goals(),
     trusted_base=['/verif/stubs/prelude.h', '/verif/spec/gregorian.h',
-                  'ASSUMED (not yet discharged) contract: impl::day_difference / impl::ymd_ord return DAYORD(1) - DAYORD(2) - used by difference_day and above',
                   'opaque specification symbols with definitions assumed at instantiated tuples (REVEAL_* macros)'],
     level_text='Unbounded proof, for all valid civil times with int64 years and all int64 n within the representability bound, that for the second, minute, '
                'hour and day alignments a + n moves the unit ordinal by exactly n (step_T through the carry chain proved under C04), that the difference of two '
-               'civil times is the difference of their unit ordinals given the day difference (scale_add chain, no intermediate overflow), and that the '
+               'civil times is the difference of their unit ordinals (impl::ymd_ord and impl::day_difference proved against the day ordinal through the 400-year reduction lemma_dd, '
+               'then the scale_add chain, no intermediate overflow), and that the '
                'relational operators are the lexicographic order on the six fields; code-free lemmas show the day ordinal orders valid dates exactly like '
                '(year, month, day) (lemma_dayord_lex), so the order agrees with the sign of the difference.',
-    level_note='NOT discharged and therefore only assumed: the contract of impl::day_difference/ymd_ord (day difference across 400-year reductions); operator-(n) '
+    level_note='NOT discharged: operator-(n) '
                'incl. n = INT64_MIN; the month and year alignments (step_month, step_year, ct_month_*, ct_year_*); the two inverse laws as composed lemmas. '
                'These parts are not counted as proved.',
-    not_decided='day_difference/ymd_ord bodies; operator-(n); month and year alignment arithmetic; composed inverse laws',
-    assumptions=['contract of impl::day_difference assumed (see trusted_base)'],
+    not_decided='operator-(n); month and year alignment arithmetic; composed inverse laws',
+    assumptions=[],
 )
 
 
